@@ -3,6 +3,7 @@ package props
 import (
 	"fmt"
 	"math"
+	"sync"
 	"sync/atomic"
 	"testing"
 
@@ -24,7 +25,17 @@ func tenths(s float64) (int, bool) {
 	return int(k), true
 }
 
-var v2Oracle = spec.NewV2Oracle()
+var (
+	v2OracleOnce sync.Once
+	v2OracleVal  *spec.V2Oracle
+)
+
+// v2O builds the v2 oracle on first use (its memo tables take a few hundred ms
+// under the race detector; the cold-start children of C14 must start fast).
+func v2O() *spec.V2Oracle {
+	v2OracleOnce.Do(func() { v2OracleVal = spec.NewV2Oracle() })
+	return v2OracleVal
+}
 
 // checkV2Scores is the single-case arbiter of C05: all five quantities of one
 // full v2 assignment against the exact oracle.
@@ -33,7 +44,7 @@ func checkV2Scores(a spec.Assignment) error {
 	if err != nil {
 		return fmt.Errorf("cannot build %v: %v", a, err)
 	}
-	want := v2Oracle.Score(a)
+	want := v2O().Score(a)
 	got := o.Scores()
 	sets := [][]int{want.Base, want.Temporal, want.Env}
 	for i, name := range adapt.ScoreNames["2.0"] {
@@ -130,12 +141,12 @@ func TestC05(t *testing.T) {
 		must(o.Set("C", c))
 		must(o.Set("I", i))
 		must(o.Set("A", a))
-		bset := v2Oracle.BaseSet(av, ac, au, c, i, a)
+		bset := v2O().BaseSet(av, ac, au, c, i, a)
 		if len(bset) > 1 {
 			atomic.AddInt64(&tiesB, 1)
 		}
-		wantImp, _ := v2Oracle.Impact(c, i, a).Float64()
-		wantExp, _ := v2Oracle.Exploitability(av, ac, au).Float64()
+		wantImp, _ := v2O().Impact(c, i, a).Float64()
+		wantExp, _ := v2O().Exploitability(av, ac, au).Float64()
 		idx := b * perBase
 		in := func(set []int, got float64) bool {
 			k, ok := tenths(got)
@@ -149,7 +160,7 @@ func TestC05(t *testing.T) {
 		for cri, cr := range vals(11) {
 			for iri, ir := range vals(12) {
 				for ari, ar := range vals(13) {
-					s, cp := v2Oracle.AdjustedBaseSet(av, ac, au, c, i, a, cr, ir, ar)
+					s, cp := v2O().AdjustedBaseSet(av, ac, au, c, i, a, cr, ir, ar)
 					adj[cri][iri][ari] = adjT{s, cp}
 				}
 			}
@@ -160,7 +171,7 @@ func TestC05(t *testing.T) {
 				must(o.Set("RL", rl))
 				for ci, rc := range vals(8) {
 					must(o.Set("RC", rc))
-					tset := v2Oracle.TemporalSetIdx(bset, ei, ri, ci)
+					tset := v2O().TemporalSetIdx(bset, ei, ri, ci)
 					if len(tset) > 1 {
 						atomic.AddInt64(&tiesT, 1)
 					}
@@ -175,7 +186,7 @@ func TestC05(t *testing.T) {
 									for ari, ar := range vals(13) {
 										must(o.Set("AR", ar))
 										ad := adj[cri][iri][ari]
-										eset := v2Oracle.EnvSetIdx(v2Oracle.TemporalSetIdx(ad.set, ei, ri, ci), cdi, tdi)
+										eset := v2O().EnvSetIdx(v2O().TemporalSetIdx(ad.set, ei, ri, ci), cdi, tdi)
 										ge := o.EnvironmentalScore()
 										good := in(eset, ge) && in(bset, o.BaseScore()) && in(tset, o.TemporalScore()) &&
 											math.Abs(o.Impact()-wantImp) <= 1e-9 && math.Abs(o.Exploitability()-wantExp) <= 1e-9
@@ -220,7 +231,7 @@ func TestC05(t *testing.T) {
 	h.R.Count("AdjustedImpact capped by min(10,.)", nCapped)
 	for _, idx := range []int{0, 1, 4242, 70000000, v2Total - 1, 13371337, 99999999} {
 		a := v2Decode(idx)
-		w := v2Oracle.Score(a)
+		w := v2O().Score(a)
 		h.R.Sample("class", map[string]any{"index": idx, "vector": spec.Canon(spec.V2, a), "oracle_tenths": map[string]any{"base": w.Base, "temporal": w.Temporal, "environmental": w.Env}})
 	}
 	if nTotal != v2Total {
